@@ -44,8 +44,10 @@ SitesFor(k) == CASE k = "u"   -> {"none", "call"}
                  [] k = "p"   -> {"none", "init", "p1", "p2"}
                  [] k = "ph"  -> {"none", "init", "p1"}
                  [] k = "x"   -> {"none", "init", "p1", "p2", "b1"}
-Kinds(t) == IF t = "httpcap" THEN {"u", "big", "x"} ELSE {"u", "big", "p", "ph", "x"}
-CallDescs(t) == UNION {{[k |-> k, site |-> s, ops |-> o] : s \in SitesFor(k), o \in OpsFor(k)} : k \in Kinds(t)}
+DescsOf(kinds) == UNION {{[k |-> k, site |-> s, ops |-> o] : s \in SitesFor(k), o \in OpsFor(k)} : k \in kinds}
+DescsAll == DescsOf({"u", "big", "p", "ph", "x"})          \* zero-arity: evaluated once
+DescsCap == DescsOf({"u", "big", "x"})
+CallDescs(t) == IF t = "httpcap" THEN DescsCap ELSE DescsAll
 Raises(c) == c.site \in {"call", "init", "p1", "p2"}
 Allowed(t) == IF t = "httpcap" THEN MsgClasses \cap {"ascii"} ELSE MsgClasses
 
@@ -162,7 +164,7 @@ Cancel ==
   /\ UNCHANGED <<tr, msg, script, ip, nsid>>
 
 StartCall(c, m) == UnaryCall(c, m) \/ StreamCall(c, m)
-Next == (\E c \in CallDescs(tr), m \in MsgClasses \cup {"none"} : StartCall(c, m)) \/ Tick \/ Close \/ Cancel
+Next == (MayCall /\ \E c \in CallDescs(tr) : \E m \in NextMsg(c) : StartCall(c, m)) \/ Tick \/ Close \/ Cancel
 Spec == Init /\ [][Next]_vars
 Done == pc = "idle" /\ ip >= 1        \* a complete history (every prefix of calls is one)
 
